@@ -1,5 +1,70 @@
-(* Proofs/Stream.v — lemmas about Model/Stream.v (property C08), part 1: base streams. *)
+(* Proofs/Stream.v — lemmas about Model/Stream.v (property C08), part 1:
+   the local invariants (base streams are FIFO, copy parents hand every child a prefix of
+   the one shared list, convert nodes are filter-maps) hold in every reachable state, for
+   every schedule (= every op list), every select outcome and every fuel. *)
 From Eino Require Import Base.Util Model.Stream.
+From Coq Require Import Lia.
+
+Arguments stream_recv : simpl never.
+Arguments stream_send : simpl never.
+Arguments stream_close_send : simpl never.
+Arguments stream_close_recv : simpl never.
+
+(* ------------------------------------------------------------------ lists *)
+
+Lemma upd_length : forall A (l : list A) i a, List.length (upd l i a) = List.length l.
+Proof. induction l as [|b l IH]; intros [|i] a; simpl; auto. Qed.
+
+Lemma nth_error_upd_eq : forall A (l : list A) i a, i < List.length l -> nth_error (upd l i a) i = Some a.
+Proof. induction l as [|b l IH]; intros [|i] a H; simpl in *; try lia; auto. apply IH. lia. Qed.
+
+Lemma nth_error_upd_neq : forall A (l : list A) i j a, i <> j -> nth_error (upd l i a) j = nth_error l j.
+Proof.
+  induction l as [|b l IH]; intros [|i] [|j] a H; simpl; auto; try congruence.
+  all: try (apply IH; congruence).
+Qed.
+
+Lemma nth_error_upd : forall A (l : list A) i j a x,
+  nth_error (upd l i a) j = Some x -> (i = j /\ x = a) \/ (i <> j /\ nth_error l j = Some x).
+Proof.
+  intros A l i j a x H. destruct (Nat.eq_dec i j) as [->|Hn].
+  - left. split; auto. assert (Hl : j < List.length l).
+    { rewrite <- (upd_length A l j a). apply nth_error_Some. congruence. }
+    rewrite nth_error_upd_eq in H by exact Hl. congruence.
+  - right. split; auto. rewrite nth_error_upd_neq in H by exact Hn. exact H.
+Qed.
+
+Lemma Forall_upd : forall A (P : A -> Prop) l i a, Forall P l -> P a -> Forall P (upd l i a).
+Proof.
+  intros A P. induction l as [|b l IH]; intros [|i] a HF Ha; simpl; auto; inversion HF; subst; constructor; auto.
+Qed.
+
+Lemma Forall_nth_error : forall A (P : A -> Prop) l i a, Forall P l -> nth_error l i = Some a -> P a.
+Proof. intros A P l i a HF H. rewrite Forall_forall in HF. apply HF. eapply nth_error_In; eauto. Qed.
+
+Lemma firstn_S_nth : forall A (l : list A) c x, nth_error l c = Some x -> firstn (S c) l = firstn c l ++ [x].
+Proof.
+  induction l as [|a l IH]; intros [|c] x H; simpl in *; try discriminate.
+  - congruence.
+  - f_equal. apply IH. exact H.
+Qed.
+
+Lemma firstn_app_le : forall A (l : list A) c x, c <= List.length l -> firstn c (l ++ x) = firstn c l.
+Proof.
+  intros A l c x H. rewrite firstn_app. replace (c - List.length l) with 0 by lia. simpl. apply app_nil_r.
+Qed.
+
+Lemma filter_map_app : forall A B (f : A -> option B) l1 l2,
+  filter_map f (l1 ++ l2) = filter_map f l1 ++ filter_map f l2.
+Proof.
+  intros A B f. induction l1 as [|a l1 IH]; intros l2; simpl; auto.
+  destruct (f a); simpl; rewrite IH; auto.
+Qed.
+
+(* ------------------------------------------------------------------ base streams *)
+
+Definition stream_ok (s : stream) : Prop :=
+  s_sent s = s_deliv s ++ s_buf s /\ List.length (s_buf s) <= eff_cap (s_cap s).
 
 Lemma stream_recv_eof_iff : forall s,
   fst (stream_recv s) = PEOF <-> (s_sclosed s = true /\ s_buf s = []).
@@ -8,4 +73,491 @@ Proof.
   - destruct (s_sclosed s); simpl; split; intros H; try discriminate; auto.
     destruct H as [H _]. discriminate.
   - split; intros H; try discriminate. destruct H as [_ H]. discriminate.
+Qed.
+
+Lemma stream_recv_ok : forall s, stream_ok s -> stream_ok (snd (stream_recv s)).
+Proof.
+  intros s [H1 H2]. unfold stream_recv. destruct (s_buf s) as [|x b] eqn:E.
+  - destruct (s_sclosed s); simpl; split; auto; rewrite E; auto.
+  - simpl. split; simpl.
+    + rewrite H1. rewrite <- app_assoc. reflexivity.
+    + simpl in H2. lia.
+Qed.
+
+Lemma stream_send_ok : forall s x, stream_ok s -> stream_ok (snd (stream_send s x)).
+Proof.
+  intros s x [H1 H2]. unfold stream_send.
+  destruct (Nat.ltb 0 (s_rclosed s)); [split; auto|].
+  destruct (s_sclosed s); [split; auto|].
+  destruct (Nat.ltb (List.length (s_buf s)) (eff_cap (s_cap s))) eqn:E; [|split; auto].
+  apply Nat.ltb_lt in E. simpl. split; simpl.
+  - rewrite H1. rewrite app_assoc. reflexivity.
+  - rewrite app_length. simpl. lia.
+Qed.
+
+Lemma stream_close_send_ok : forall s, stream_ok s -> stream_ok (snd (stream_close_send s)).
+Proof. intros s [H1 H2]. unfold stream_close_send. destruct (s_sclosed s); split; auto. Qed.
+
+Lemma stream_close_recv_ok : forall s, stream_ok s -> stream_ok (snd (stream_close_recv s)).
+Proof. intros s [H1 H2]. unfold stream_close_recv. split; auto. Qed.
+
+Lemma new_stream_ok : forall c u, stream_ok (new_stream c u).
+Proof. intros c u. split; simpl; auto. unfold eff_cap. lia. Qed.
+
+Lemma array_stream_ok : forall arr, stream_ok (array_stream arr).
+Proof. intros arr. split; simpl; auto. rewrite map_length. unfold eff_cap. lia. Qed.
+
+(* send accepts exactly when it reports closed = false, and a closed stream refuses *)
+Lemma stream_send_closed : forall s x, 0 < s_rclosed s -> stream_send s x = (SClosed, s).
+Proof. intros s x H. unfold stream_send. apply Nat.ltb_lt in H. rewrite H. reflexivity. Qed.
+
+Lemma stream_send_sent : forall s x r s', stream_send s x = (r, s') ->
+  (r = SOk /\ s_sent s' = s_sent s ++ [x]) \/ (r <> SOk /\ s' = s).
+Proof.
+  intros s x r s'. unfold stream_send.
+  destruct (Nat.ltb 0 (s_rclosed s)); [intros H; inversion H; right; split; congruence|].
+  destruct (s_sclosed s); [intros H; inversion H; right; split; congruence|].
+  destruct (Nat.ltb _ _); intros H; inversion H; subst; [left; auto | right; split; congruence].
+Qed.
+
+(* ------------------------------------------------------------------ readers, parents *)
+
+Fixpoint rd_ok (t : rd) : Prop :=
+  match t with
+  | RConv f src cin cout => cout = filter_map (conv_item f) cin /\ rd_ok src
+  | _ => True
+  end.
+
+Definition child_ok (P : parent) (i : nat) : Prop :=
+  forall oc g, nth_error (p_cur P) i = Some oc -> nth_error (p_got P) i = Some g ->
+    (exists k, g = firstn k (p_items P))
+    /\ (forall c, oc = Some c -> g = firstn c (p_items P) /\ c <= List.length (p_items P))
+    /\ (nth_error (p_sawEOF P) i = Some true -> g = p_items P /\ p_eof P = true).
+
+Definition parent_ok (P : parent) : Prop :=
+  List.length (p_got P) = List.length (p_cur P)
+  /\ List.length (p_sawEOF P) = List.length (p_cur P)
+  /\ (forall i, child_ok P i)
+  /\ p_pulls P = List.length (p_items P) + (if p_eof P then 1 else 0)
+  /\ rd_ok (p_src P).
+
+Definition store_ok (st : store) : Prop :=
+  Forall stream_ok (streams st) /\ Forall parent_ok (parents st).
+
+Lemma app_at_length : forall l i x, List.length (app_at l i x) = List.length l.
+Proof. intros l i x. unfold app_at. destruct (nth_error l i); auto. apply upd_length. Qed.
+
+Lemma app_at_eq : forall l i x g, nth_error l i = Some g -> nth_error (app_at l i x) i = Some (g ++ [x]).
+Proof.
+  intros l i x g H. unfold app_at. rewrite H. apply nth_error_upd_eq. apply nth_error_Some. congruence.
+Qed.
+
+Lemma app_at_neq : forall l i j x, i <> j -> nth_error (app_at l i x) j = nth_error l j.
+Proof. intros l i j x H. unfold app_at. destruct (nth_error l i); auto. apply nth_error_upd_neq. exact H. Qed.
+
+Ltac split5 := split; [|split; [|split; [|split]]].
+
+Lemma with_src_ok : forall P src, parent_ok P -> rd_ok src -> parent_ok (with_src P src).
+Proof.
+  intros P src (H1 & H2 & H3 & H4 & H5) Hs. unfold parent_ok, with_src; simpl. split5; auto.
+Qed.
+
+(* an already filled element is handed to child i *)
+Lemma deliver_ok : forall P i c x,
+  parent_ok P -> nth_error (p_cur P) i = Some (Some c) -> nth_error (p_items P) c = Some x ->
+  parent_ok (deliver P i c x).
+Proof.
+  intros P i c x (H1 & H2 & H3 & H4 & H5) Hc Hx.
+  unfold parent_ok, deliver; simpl. split5; auto.
+  - rewrite app_at_length, upd_length. exact H1.
+  - rewrite upd_length. exact H2.
+  - intros j. unfold child_ok; simpl. intros oc g Hoc Hg.
+    destruct (Nat.eq_dec i j) as [<-|Hn].
+    + assert (Hi : i < List.length (p_cur P)) by (apply nth_error_Some; congruence).
+      rewrite nth_error_upd_eq in Hoc by exact Hi. inversion Hoc; subst oc; clear Hoc.
+      destruct (nth_error (p_got P) i) as [g0|] eqn:Eg.
+      2:{ apply nth_error_None in Eg. lia. }
+      rewrite (app_at_eq _ _ _ _ Eg) in Hg. inversion Hg; subst g; clear Hg.
+      destruct (H3 i _ _ Hc Eg) as (_ & Hb & Hc3). destruct (Hb c eq_refl) as [Hg0 Hle].
+      assert (Hlt : c < List.length (p_items P)) by (apply nth_error_Some; congruence).
+      assert (E : g0 ++ [x] = firstn (S c) (p_items P)).
+      { rewrite Hg0. symmetry. apply firstn_S_nth. exact Hx. }
+      split; [|split].
+      * exists (S c). exact E.
+      * intros c' Hc'. inversion Hc'; subst c'. split; [exact E | lia].
+      * intros Hs. destruct (Hc3 Hs) as [Hall He]. exfalso.
+        rewrite Hg0 in Hall. assert (Hl : List.length (firstn c (p_items P)) = List.length (p_items P)) by congruence.
+        rewrite firstn_length in Hl. lia.
+    + rewrite nth_error_upd_neq in Hoc by exact Hn. rewrite app_at_neq in Hg by exact Hn.
+      exact (H3 j _ _ Hoc Hg).
+Qed.
+
+Lemma mark_eof_ok : forall P i c,
+  parent_ok P -> nth_error (p_cur P) i = Some (Some c) -> nth_error (p_items P) c = None -> p_eof P = true ->
+  parent_ok (mark_eof P i).
+Proof.
+  intros P i c (H1 & H2 & H3 & H4 & H5) Hc Hx He.
+  unfold parent_ok, mark_eof; simpl. split5; auto.
+  - rewrite upd_length. exact H2.
+  - intros j. unfold child_ok; simpl. intros oc g Hoc Hg.
+    destruct (H3 j _ _ Hoc Hg) as (Ha & Hb & Hc3). split; [|split]; auto.
+    intros Hs. destruct (Nat.eq_dec i j) as [<-|Hn].
+    + split; [|exact He]. rewrite Hc in Hoc. inversion Hoc; subst oc. destruct (Hb c eq_refl) as [Hg0 Hle].
+      apply nth_error_None in Hx. rewrite Hg0. apply firstn_all2. exact Hx.
+    + rewrite nth_error_upd_neq in Hs by exact Hn. apply Hc3; auto.
+Qed.
+
+(* once.Do filled a new element with an item *)
+Lemma pulled_item_ok : forall P x, parent_ok P -> p_eof P = false -> parent_ok (pulled_item P x).
+Proof.
+  intros P x (H1 & H2 & H3 & H4 & H5) He.
+  unfold parent_ok, pulled_item; simpl. split5; auto.
+  - intros j. unfold child_ok; simpl. intros oc g Hoc Hg.
+    destruct (H3 j _ _ Hoc Hg) as ((k & Hk) & Hb & Hc3). split; [|split].
+    + exists (Nat.min k (List.length (p_items P))). rewrite firstn_app_le by lia.
+      rewrite Hk. rewrite <- firstn_firstn. rewrite firstn_all. reflexivity.
+    + intros c Hc. destruct (Hb c Hc) as [Hg0 Hle]. split.
+      * rewrite firstn_app_le by exact Hle. exact Hg0.
+      * rewrite app_length. lia.
+    + intros Hs. destruct (Hc3 Hs) as [_ Ht]. congruence.
+  - rewrite He in H4. rewrite He. rewrite app_length. simpl. lia.
+Qed.
+
+Lemma pulled_eof_ok : forall P, parent_ok P -> p_eof P = false -> parent_ok (pulled_eof P).
+Proof.
+  intros P (H1 & H2 & H3 & H4 & H5) He.
+  unfold parent_ok, pulled_eof; simpl. split5; auto.
+  - intros j. unfold child_ok; simpl. intros oc g Hoc Hg.
+    destruct (H3 j _ _ Hoc Hg) as (Ha & Hb & Hc3). split; [|split]; auto.
+    intros Hs. destruct (Hc3 Hs) as [Hg0 _]. split; auto.
+  - rewrite He in H4. lia.
+Qed.
+
+Lemma close_child_ok : forall P i, parent_ok P -> parent_ok (close_child P i).
+Proof.
+  intros P i (H1 & H2 & H3 & H4 & H5).
+  unfold parent_ok, close_child; simpl. split5; auto.
+  - rewrite upd_length. exact H1.
+  - rewrite upd_length. exact H2.
+  - intros j. unfold child_ok; simpl. intros oc g Hoc Hg.
+    destruct (nth_error_upd _ _ _ _ _ _ Hoc) as [[-> ->]|[Hn Hoc']].
+    + assert (Hj : j < List.length (p_cur P)).
+      { rewrite <- (upd_length _ (p_cur P) j None). apply nth_error_Some. congruence. }
+      destruct (nth_error (p_cur P) j) as [oc0|] eqn:E; [|apply nth_error_None in E; lia].
+      destruct (H3 j _ _ E Hg) as (Ha & Hb & Hc3). split; [|split]; auto. intros; discriminate.
+    + exact (H3 j _ _ Hoc' Hg).
+Qed.
+
+Lemma src_closed_ok : forall P, parent_ok P -> parent_ok (src_closed P).
+Proof. intros P (H1 & H2 & H3 & H4 & H5). unfold parent_ok, src_closed; simpl. split5; auto. Qed.
+
+Lemma new_parent_ok : forall src n, rd_ok src -> parent_ok (new_parent src n).
+Proof.
+  intros src n Hs. unfold parent_ok, new_parent; simpl. repeat rewrite repeat_length. split5; auto.
+  intros i. unfold child_ok; simpl. intros oc g Hoc Hg.
+  apply nth_error_In in Hoc. apply repeat_spec in Hoc. subst oc.
+  apply nth_error_In in Hg. apply repeat_spec in Hg. subst g.
+  split; [|split].
+  - exists 0. reflexivity.
+  - intros c Hc. inversion Hc; subst. simpl. split; [reflexivity | lia].
+  - intros Hs'. apply nth_error_In in Hs'. apply repeat_spec in Hs'. discriminate.
+Qed.
+
+Lemma set_stream_ok : forall st i s, store_ok st -> stream_ok s -> store_ok (set_stream st i s).
+Proof. intros st i s [H1 H2] Hs. split; simpl; auto. apply Forall_upd; auto. Qed.
+
+Lemma set_parent_ok : forall st i p, store_ok st -> parent_ok p -> store_ok (set_parent st i p).
+Proof. intros st i p [H1 H2] Hp. split; simpl; auto. apply Forall_upd; auto. Qed.
+
+Lemma add_stream_ok : forall st s, store_ok st -> stream_ok s -> store_ok (add_stream st s).
+Proof. intros st s [H1 H2] Hs. split; simpl; auto. apply Forall_app. split; auto. Qed.
+
+Lemma add_parent_ok : forall st p, store_ok st -> parent_ok p -> store_ok (add_parent st p).
+Proof. intros st p [H1 H2] Hp. split; simpl; auto. apply Forall_app. split; auto. Qed.
+
+(* ------------------------------------------------------------------ recv, close keep the invariants *)
+
+Lemma recv_ok : forall fuel st t ch r st' t' ch',
+  recv fuel st t ch = (r, st', t', ch') -> store_ok st -> rd_ok t -> store_ok st' /\ rd_ok t'.
+Proof.
+  induction fuel as [|fuel IH]; intros st t ch r st' t' ch' H Hst Ht; simpl in H.
+  - inversion H; subst; auto.
+  - destruct t as [rest | sid | sts chosen | f src cin cout | p i].
+    + (* RArr *)
+      destruct rest; inversion H; subst; simpl; auto.
+    + (* RStr *)
+      destruct (nth_error (streams st) sid) as [s|] eqn:Es.
+      2:{ inversion H; subst; auto. }
+      destruct (stream_recv s) as [r0 s0] eqn:Er. inversion H; subst; clear H. split; auto.
+      apply set_stream_ok; auto. replace s0 with (snd (stream_recv s)) by (rewrite Er; auto).
+      apply stream_recv_ok. destruct Hst as [Hs _]. eapply Forall_nth_error; eauto.
+    + (* RMul *)
+      destruct chosen as [|c0 chosen']; [inversion H; subst; auto|].
+      remember (filter _ (c0 :: chosen')) as ready. destruct ready as [|i0 ready'].
+      { inversion H; subst; auto. }
+      destruct (nth_error sts (nth (Nat.modulo (hd 0 ch) (List.length (i0 :: ready'))) (i0 :: ready') i0)) as [sid|] eqn:Ei.
+      2:{ inversion H; subst; auto. }
+      destruct (nth_error (streams st) sid) as [s|] eqn:Es.
+      2:{ inversion H; subst; auto. }
+      destruct (stream_recv s) as [r0 s0] eqn:Er.
+      destruct r0; try (inversion H; subst; auto; fail).
+      * inversion H; subst; clear H. split; auto.
+        apply set_stream_ok; auto. replace s0 with (snd (stream_recv s)) by (rewrite Er; auto).
+        apply stream_recv_ok. destruct Hst as [Hs _]. eapply Forall_nth_error; eauto.
+      * eapply IH in H; eauto; simpl; auto.
+    + (* RConv *)
+      destruct Ht as [Hc Hsrc].
+      destruct (recv fuel st src ch) as [[[r1 st1] src1] ch1] eqn:E1.
+      destruct (IH _ _ _ _ _ _ _ E1 Hst Hsrc) as [Hst1 Hsrc1].
+      destruct r1; try (inversion H; subst; simpl; auto; fail).
+      destruct (conv_item f x) as [y|] eqn:Ey.
+      * inversion H; subst; clear H. split; auto. simpl. split; auto.
+        rewrite filter_map_app. simpl. rewrite Ey. reflexivity.
+      * eapply IH in H; eauto. simpl. split; auto.
+        rewrite filter_map_app. simpl. rewrite Ey. rewrite app_nil_r. exact Hc.
+    + (* RChild *)
+      destruct (nth_error (parents st) p) as [P|] eqn:EP.
+      2:{ inversion H; subst; auto. }
+      assert (HP : parent_ok P) by (destruct Hst as [_ Hp]; eapply Forall_nth_error; eauto).
+      destruct (nth_error (p_cur P) i) as [[c|]|] eqn:Ec; try (inversion H; subst; auto; fail).
+      destruct (nth_error (p_items P) c) as [x|] eqn:Ex.
+      { inversion H; subst; clear H. split; auto. apply set_parent_ok; auto. eapply deliver_ok; eauto. }
+      destruct (p_eof P) eqn:Ee.
+      { inversion H; subst; clear H. split; auto. apply set_parent_ok; auto. eapply mark_eof_ok; eauto. }
+      destruct (recv fuel st (p_src P) ch) as [[[r1 st1] src1] ch1] eqn:E1.
+      assert (Hsrc : rd_ok (p_src P)) by (destruct HP as (_ & _ & _ & _ & Hs); exact Hs).
+      destruct (IH _ _ _ _ _ _ _ E1 Hst Hsrc) as [Hst1 Hsrc1].
+      assert (HW : parent_ok (with_src P src1)) by (apply with_src_ok; auto).
+      destruct r1; inversion H; subst; clear H; split; auto; apply set_parent_ok; auto.
+      * apply deliver_ok.
+        -- apply pulled_item_ok; auto.
+        -- simpl. exact Ec.
+        -- simpl. apply nth_error_None in Ex.
+           assert (Hle : c <= List.length (p_items P)).
+           { destruct HP as (Hl1 & _ & H3 & _).
+             destruct (nth_error (p_got P) i) as [g|] eqn:Eg.
+             - destruct (H3 i _ _ Ec Eg) as (_ & Hb & _). destruct (Hb c eq_refl); auto.
+             - apply nth_error_None in Eg. assert (i < List.length (p_cur P)) by (apply nth_error_Some; congruence). lia. }
+           assert (c = List.length (p_items P)) by lia. subst c.
+           rewrite nth_error_app2 by lia. rewrite Nat.sub_diag. reflexivity.
+      * apply mark_eof_ok with (c := c); simpl; auto. apply pulled_eof_ok; auto.
+Qed.
+
+Lemma close_streams_ok : forall sids st c st',
+  close_streams st sids = (c, st') -> store_ok st -> store_ok st'.
+Proof.
+  induction sids as [|sid r IH]; intros st c st' H Hst; simpl in H.
+  - inversion H; subst; auto.
+  - destruct (nth_error (streams st) sid) as [s|] eqn:Es; [|inversion H; subst; auto].
+    destruct (stream_close_recv s) as [c0 s0] eqn:Ec.
+    assert (Hs0 : stream_ok s0).
+    { replace s0 with (snd (stream_close_recv s)) by (rewrite Ec; auto). apply stream_close_recv_ok.
+      destruct Hst as [Hs _]. eapply Forall_nth_error; eauto. }
+    destruct c0; try (inversion H; subst; apply set_stream_ok; auto; fail).
+    eapply IH; eauto. apply set_stream_ok; auto.
+Qed.
+
+Lemma close_rd_ok : forall fuel st t c st',
+  close_rd fuel st t = (c, st') -> store_ok st -> store_ok st'.
+Proof.
+  induction fuel as [|fuel IH]; intros st t c st' H Hst; simpl in H.
+  - inversion H; subst; auto.
+  - destruct t as [rest | sid | sts chosen | f src cin cout | p i].
+    + inversion H; subst; auto.
+    + eapply close_streams_ok; eauto.
+    + eapply close_streams_ok; eauto.
+    + eapply IH; eauto.
+    + destruct (nth_error (parents st) p) as [P|] eqn:EP; [|inversion H; subst; auto].
+      assert (HP : parent_ok P) by (destruct Hst as [_ Hp]; eapply Forall_nth_error; eauto).
+      destruct (nth_error (p_cur P) i) as [[c0|]|] eqn:Ec; try (inversion H; subst; auto; fail).
+      destruct (Nat.eqb _ _).
+      * eapply IH; eauto. apply set_parent_ok; auto. apply src_closed_ok. apply close_child_ok. exact HP.
+      * inversion H; subst. apply set_parent_ok; auto. apply close_child_ok. exact HP.
+Qed.
+
+(* ------------------------------------------------------------------ whole states *)
+
+Definition state_ok (G : state) : Prop :=
+  store_ok (st_store G)
+  /\ Forall (fun H => rd_ok (h_rd H)) (st_handles G)
+  /\ Forall (fun F => rd_ok (f_src F)) (st_fwds G).
+
+Lemma init_ok : state_ok init_state.
+Proof. repeat split; simpl; constructor. Qed.
+
+Lemma consume_handles_ok : forall G h,
+  Forall (fun H => rd_ok (h_rd H)) (st_handles G) -> Forall (fun H => rd_ok (h_rd H)) (st_handles (consume G h)).
+Proof.
+  intros G h HF. unfold consume. destruct (nth_error (st_handles G) h) as [H|] eqn:E; auto.
+  simpl. apply Forall_upd; auto. simpl. eapply Forall_nth_error in E; eauto.
+Qed.
+
+Lemma consume_store : forall G h, st_store (consume G h) = st_store G.
+Proof. intros G h. unfold consume. destruct (nth_error (st_handles G) h); auto. Qed.
+Lemma consume_fwds : forall G h, st_fwds (consume G h) = st_fwds G.
+Proof. intros G h. unfold consume. destruct (nth_error (st_handles G) h); auto. Qed.
+
+Lemma consume_ok : forall G h, state_ok G -> state_ok (consume G h).
+Proof.
+  intros G h (H1 & H2 & H3). repeat split.
+  - rewrite consume_store. apply H1.
+  - rewrite consume_store. apply H1.
+  - apply consume_handles_ok. exact H2.
+  - rewrite consume_fwds. exact H3.
+Qed.
+
+Lemma consume_all_ok : forall hs G, state_ok G -> state_ok (consume_all G hs).
+Proof. induction hs as [|h r IH]; intros G HG; simpl; auto. apply IH. apply consume_ok. exact HG. Qed.
+
+Lemma live_rd_ok : forall G h t, state_ok G -> live_rd G h = Some t -> rd_ok t.
+Proof.
+  intros G h t (_ & H2 & _) H. unfold live_rd in H.
+  destruct (nth_error (st_handles G) h) as [Hh|] eqn:E; [|discriminate].
+  destruct (h_live Hh); [|discriminate]. inversion H; subst.
+  eapply Forall_nth_error in E; eauto. exact E.
+Qed.
+
+Lemma live_rds_ok : forall G hs ts, state_ok G -> live_rds G hs = Some ts -> Forall rd_ok ts.
+Proof.
+  intros G. induction hs as [|h r IH]; intros ts HG H; simpl in H.
+  - inversion H; subst. constructor.
+  - destruct (live_rd G h) as [t|] eqn:E; [|discriminate].
+    destruct (live_rds G r) as [ts'|] eqn:E'; [|discriminate].
+    inversion H; subst. constructor; [eapply live_rd_ok; eauto | apply IH; auto].
+Qed.
+
+Lemma merge_collect_ok : forall ts st fw ss arr st' fw' ss' arr',
+  merge_collect st fw ts ss arr = (st', fw', ss', arr') ->
+  store_ok st -> Forall (fun F => rd_ok (f_src F)) fw -> Forall rd_ok ts ->
+  store_ok st' /\ Forall (fun F => rd_ok (f_src F)) fw'.
+Proof.
+  induction ts as [|t r IH]; intros st fw ss arr st' fw' ss' arr' H Hst Hfw Hts; simpl in H.
+  - inversion H; subst; auto.
+  - inversion Hts; subst.
+    destruct t; try (eapply IH; eauto; fail).
+    + eapply IH; eauto.
+      * apply add_stream_ok; auto. apply new_stream_ok.
+      * apply Forall_app. split; auto.
+    + eapply IH; eauto.
+      * apply add_stream_ok; auto. apply new_stream_ok.
+      * apply Forall_app. split; auto.
+Qed.
+
+Lemma Forall_repeat : forall A (P : A -> Prop) a n, P a -> Forall P (repeat a n).
+Proof. intros A P a n H. induction n; simpl; constructor; auto. Qed.
+
+Lemma do_op_ok : forall fuel G o b G', do_op fuel G o = (b, G') -> state_ok G -> state_ok G'.
+Proof.
+  intros fuel G o b G' H HG. pose proof HG as (H1 & H2 & H3).
+  destruct o as [cap | xs | h n | hs | h f | sid x | sid | h ch | h | k ch]; simpl in H.
+  - (* OPipe *)
+    inversion H; subst; clear H. repeat split; simpl; try apply H1; auto.
+    + apply Forall_app. split; [apply H1 | repeat constructor; apply new_stream_ok].
+    + apply Forall_app. split; auto. repeat constructor.
+  - (* OArray *)
+    inversion H; subst; clear H. repeat split; simpl; try apply H1; auto.
+    apply Forall_app. split; auto. repeat constructor.
+  - (* OCopy *)
+    destruct (live_rd G h) as [t|] eqn:El; [|inversion H; subst; auto].
+    destruct (Nat.ltb n 2); [inversion H; subst; auto|].
+    pose proof (live_rd_ok _ _ _ HG El) as Ht.
+    pose proof (consume_ok G h HG) as (C1 & C2 & C3).
+    destruct t; inversion H; subst; clear H; repeat split; simpl; try apply C1; auto;
+      try (apply Forall_app; split; [exact C2|]);
+      try (apply Forall_repeat; simpl; auto; fail);
+      try (apply Forall_forall; intros Hh Hin; apply in_map_iff in Hin; destruct Hin as (i & <- & _); simpl; auto; fail);
+      try (apply Forall_app; split; [apply C1 | repeat constructor; apply new_parent_ok; exact Ht]).
+  - (* OMerge *)
+    destruct hs as [|h0 [|h1 hs']]; [inversion H; subst; auto| |].
+    { destruct (live_rd G h0); inversion H; subst; auto. }
+    destruct (negb (nodupb (h0 :: h1 :: hs'))); [inversion H; subst; auto|].
+    destruct (live_rds G (h0 :: h1 :: hs')) as [ts|] eqn:El; [|inversion H; subst; auto].
+    pose proof (live_rds_ok _ _ _ HG El) as Hts.
+    pose proof (consume_all_ok (h0 :: h1 :: hs') G HG) as (C1 & C2 & C3).
+    destruct (merge_collect _ _ ts [] []) as [[[st1 fw1] ss] arr] eqn:Em.
+    destruct (merge_collect_ok _ _ _ _ _ _ _ _ _ Em C1 C3 Hts) as [M1 M2].
+    destruct ss as [|s0 ss']; destruct arr as [|a0 arr']; inversion H; subst; clear H;
+      repeat split; simpl; try apply M1; auto;
+      try (apply Forall_app; split; [exact C2 | repeat constructor]);
+      try (apply Forall_app; split; [apply M1 | repeat constructor; apply array_stream_ok]).
+  - (* OConv *)
+    destruct (live_rd G h) as [t|] eqn:El; [|inversion H; subst; auto].
+    pose proof (live_rd_ok _ _ _ HG El) as Ht.
+    pose proof (consume_ok G h HG) as (C1 & C2 & C3).
+    inversion H; subst; clear H. repeat split; simpl; try apply C1; auto.
+    apply Forall_app. split; auto. repeat constructor; simpl; auto.
+  - (* OSend *)
+    destruct (nth_error (streams (st_store G)) sid) as [s|] eqn:Es; [|inversion H; subst; auto].
+    destruct (negb (s_user s)); [inversion H; subst; auto|].
+    destruct (stream_send s x) as [r s'] eqn:E. inversion H; subst; clear H.
+    repeat split; simpl; try apply H1; auto. apply Forall_upd; [apply H1|].
+    replace s' with (snd (stream_send s x)) by (rewrite E; auto). apply stream_send_ok.
+    destruct H1 as [Hs _]. eapply Forall_nth_error; eauto.
+  - (* OCloseSend *)
+    destruct (nth_error (streams (st_store G)) sid) as [s|] eqn:Es; [|inversion H; subst; auto].
+    destruct (negb (s_user s)); [inversion H; subst; auto|].
+    destruct (stream_close_send s) as [r s'] eqn:E. inversion H; subst; clear H.
+    repeat split; simpl; try apply H1; auto. apply Forall_upd; [apply H1|].
+    replace s' with (snd (stream_close_send s)) by (rewrite E; auto). apply stream_close_send_ok.
+    destruct H1 as [Hs _]. eapply Forall_nth_error; eauto.
+  - (* ORecv *)
+    destruct (nth_error (st_handles G) h) as [Hh|] eqn:Eh; [|inversion H; subst; auto].
+    destruct (negb (h_live Hh)); [inversion H; subst; auto|].
+    destruct (recv fuel (st_store G) (h_rd Hh) ch) as [[[r st1] t1] ch1] eqn:Er.
+    inversion H; subst; clear H.
+    assert (Ht : rd_ok (h_rd Hh)) by (eapply Forall_nth_error in Eh; eauto; exact Eh).
+    destruct (recv_ok _ _ _ _ _ _ _ _ Er H1 Ht) as [R1 R2].
+    repeat split; simpl; try apply R1; auto. apply Forall_upd; auto.
+  - (* OClose *)
+    destruct (nth_error (st_handles G) h) as [Hh|] eqn:Eh; [|inversion H; subst; auto].
+    destruct (negb (h_live Hh)); [inversion H; subst; auto|].
+    destruct (close_rd fuel (st_store G) (h_rd Hh)) as [r st1] eqn:Er.
+    inversion H; subst; clear H.
+    pose proof (close_rd_ok _ _ _ _ _ Er H1) as R1.
+    repeat split; simpl; try apply R1; auto. apply Forall_upd; auto. simpl.
+    eapply Forall_nth_error in Eh; eauto. exact Eh.
+  - (* OFwd *)
+    destruct (nth_error (st_fwds G) k) as [F|] eqn:EF; [|inversion H; subst; auto].
+    assert (HF : rd_ok (f_src F)) by (eapply Forall_nth_error in EF; eauto; exact EF).
+    destruct (f_st F) as [|x| |].
+    + destruct (recv fuel (st_store G) (f_src F) ch) as [[[r st1] src1] ch1] eqn:Er.
+      destruct (recv_ok _ _ _ _ _ _ _ _ Er H1 HF) as [R1 R2].
+      destruct r; try (inversion H; subst; clear H; repeat split; simpl; try apply R1; auto; apply Forall_upd; auto; fail).
+      destruct (nth_error (streams st1) (f_dst F)) as [d|] eqn:Ed; [|inversion H; subst; auto].
+      destruct (stream_close_send d) as [r0 d'] eqn:Ec. inversion H; subst; clear H.
+      repeat split; simpl; try apply R1; auto.
+      * apply Forall_upd; [apply R1|]. replace d' with (snd (stream_close_send d)) by (rewrite Ec; auto).
+        apply stream_close_send_ok. destruct R1 as [Hs _]. eapply Forall_nth_error; eauto.
+      * apply Forall_upd; auto.
+    + destruct (nth_error (streams (st_store G)) (f_dst F)) as [d|] eqn:Ed; [|inversion H; subst; auto].
+      assert (Hd : stream_ok d) by (destruct H1 as [Hs _]; eapply Forall_nth_error; eauto).
+      destruct (stream_send d x) as [r d'] eqn:Es.
+      destruct r; try (inversion H; subst; auto; fail).
+      * inversion H; subst; clear H. repeat split; simpl; try apply H1; auto.
+        -- apply Forall_upd; [apply H1|]. replace d' with (snd (stream_send d x)) by (rewrite Es; auto).
+           apply stream_send_ok; auto.
+        -- apply Forall_upd; auto.
+      * destruct (stream_close_send d) as [r0 d''] eqn:Ec. inversion H; subst; clear H.
+        repeat split; simpl; try apply H1; auto.
+        -- apply Forall_upd; [apply H1|]. replace d'' with (snd (stream_close_send d)) by (rewrite Ec; auto).
+           apply stream_close_send_ok; auto.
+        -- apply Forall_upd; auto.
+    + destruct (close_rd fuel (st_store G) (f_src F)) as [r st1] eqn:Er.
+      inversion H; subst; clear H. pose proof (close_rd_ok _ _ _ _ _ Er H1) as R1.
+      repeat split; simpl; try apply R1; auto. apply Forall_upd; auto.
+    + inversion H; subst; auto.
+Qed.
+
+Lemma run_ok : forall fuel ops G bs G', run fuel G ops = (bs, G') -> state_ok G -> state_ok G'.
+Proof.
+  intros fuel. induction ops as [|o r IH]; intros G bs G' H HG; simpl in H.
+  - inversion H; subst; auto.
+  - destruct (do_op fuel G o) as [b G1] eqn:E1. destruct (run fuel G1 r) as [bs2 G2] eqn:E2.
+    inversion H; subst. eapply IH; eauto. eapply do_op_ok; eauto.
+Qed.
+
+Lemma reachable_ok : forall G, reachable G -> state_ok G.
+Proof.
+  intros G (fuel & ops & H). destruct (run fuel init_state ops) as [bs G'] eqn:E. simpl in H. subst G'.
+  eapply run_ok; eauto. apply init_ok.
 Qed.
